@@ -27,6 +27,8 @@ inductive Draw where
   | rnd (p : Pos)                       -- `utils.move_random(search_space_positions)`
   | feas (p : Pos) (ok : Bool)          -- `conv.not_in_constraint(p)`
   | accept (pAcc : F) (r : Rat)         -- `_p_accept_default()` and the `random()` it is compared with in `_consider`
+  | part (pos : Pos) (velo : List F)    -- `Particle._move_part(pos, velo)`: the float velocity is an oracle, the position is checked
+  | spiral (v : List F)                 -- the float vector `A + B` of `Spiral.move_spiral` before clip and cast
 deriving Repr, DecidableEq, Inhabited
 
 abbrev Tape := List Draw
@@ -41,6 +43,12 @@ def moveRandomLoop : Tape → Except Err (Pos × Tape)
   | [] => .error .needMore
   | [.rnd _] => .error .needMore
   | _ => .error (protocol "move_random")
+
+/-- `not_in_constraint(p)` read from the tape -/
+def askFeas (p : Pos) : Tape → Except Err (Bool × Tape)
+  | .feas q ok :: rest => if q ≠ p then .error (protocol "constraint-evaluated-elsewhere") else .ok (ok, rest)
+  | [] => .error .needMore
+  | _ => .error (protocol "constraint")
 
 /-- geometry of the space as the kernels see it -/
 structure Geo where
